@@ -125,6 +125,18 @@ type Fleet struct {
 	// ShadowTaint marks dbi/key that were uncaptured application changes at
 	// the moment a shadow-mode syncer stopped (documented special case).
 	ShadowTaint map[string]bool
+	// LastNew holds, during NodeChanged callbacks, the versions (by dbi/key)
+	// that this transaction introduced and that had never been seen on any
+	// instance before: versions that originate on this node.
+	LastNew map[string]Version
+	// emptyTxn: the last LS write transaction of the node's sync loop
+	// (LoadOnce/SendOnce) committed nothing, and the loop is still parked
+	// between the end of that transaction and the following env.Info().
+	emptyTxn map[*Node]bool
+	// RaceKeys marks node/dbi/key written by an application transaction
+	// that committed in exactly that window and therefore reused the
+	// transaction id of the empty LS transaction (known finding).
+	RaceKeys map[string]bool
 
 	Stats FleetStats
 }
@@ -170,6 +182,8 @@ func NewFleet(sim *Sim, root string, cfg FleetCfg) (*Fleet, error) {
 		AppVersions: map[string]map[string]map[Version]bool{},
 		Tainted:     map[string]bool{},
 		ShadowTaint: map[string]bool{},
+		emptyTxn:    map[*Node]bool{},
+		RaceKeys:    map[string]bool{},
 		appLeft:     cfg.AppTxns,
 		StopOnViol:  true,
 	}
@@ -245,6 +259,7 @@ func (f *Fleet) addVersion(set map[string]map[string]map[Version]bool, dbi, key 
 
 // observe re-reads nodes whose LMDB changed and feeds the monitors.
 func (f *Fleet) observe(actor Actor) {
+	changedNodes := map[*Node]bool{}
 	for _, n := range f.Nodes {
 		if n.Env == nil {
 			continue
@@ -265,17 +280,31 @@ func (f *Fleet) observe(actor Actor) {
 			continue
 		}
 		content, _ := st.LogicalContent(n.Native)
+		f.LastNew = map[string]Version{}
 		for dbi, m := range content {
 			for k, v := range m {
+				if !f.Versions[dbi][k][v] {
+					f.LastNew[dbi+"/"+k] = v // first time this version is seen anywhere
+				}
 				f.addVersion(f.Versions, dbi, k, v)
 			}
 		}
+		changedNodes[n] = true
 		if actor.Kind == "ls" {
 			f.Stats.LSTxns++
 		}
 		f.Sim.Logf("  state %s txn=%d %s", n.Name, st.LastTxnID, content.String())
 		for _, m := range f.Mon {
 			m.NodeChanged(f, n, prev, st, actor)
+		}
+	}
+	if actor.Kind == "ls" && actor.Task != nil && actor.Task.Role == "syncloop" {
+		n := actor.Node
+		p := actor.Task.point
+		if p == "loadonce:after-txn" || (p == "sendonce:after-txn" && !n.Native) {
+			f.emptyTxn[n] = !changedNodes[n]
+		} else {
+			f.emptyTxn[n] = false
 		}
 	}
 	for _, m := range f.Mon {
@@ -297,6 +326,14 @@ func (f *Fleet) AppCommit(n *Node, ops []AppOp) Actor {
 	txn, err := n.Commit(ops)
 	if err != nil {
 		panic(fmt.Sprintf("harness: app commit on %s failed: %v", n.Name, err))
+	}
+	if f.emptyTxn[n] && n.Running {
+		// The application reuses the transaction id of an empty LS write
+		// transaction before LS has called env.Info().
+		for _, op := range ops {
+			f.RaceKeys[n.Name+"/"+op.DBI+"/"+string(op.Key)] = true
+		}
+		f.Sim.Probe("txnid-reuse-window")
 	}
 	f.Stats.AppTxns++
 	f.AppHistory = append(f.AppHistory, AppTxnRec{Node: n.Name, Txn: txn, Ops: ops, At: f.Sim.Now(), Step: f.Sim.Step})
